@@ -34,6 +34,6 @@ ITEMS = [
     Item('driver.safe_process', BA.sym_safe_process, [], 'dataflows/base/datastream_processor.py::DataStreamProcessor.safe_process'),
     Item('delete_resource.drains', K10.sym_delete_resource, [], 'dataflows/processors/delete_resource.py::delete_resource.func'),
     Item('validate', K10.sym_validate, [], 'dataflows/processors/validate.py::validate.process_resource'),
-    Item('pipelines', None, [('observer-transparency', N.nat_observers)], None),
+    Item('pipelines', None, [('observer-transparency', N.nat_observers), ('observers-behind-a-pair', N.nat_observers_behind_a_pair)], None),
     Item('recorded-findings', None, [('bounded', KF.nat_findings_c05)], 'dataflows/processors/dumpers/dumper_base.py::DumperBase.process_resources'),
 ]
